@@ -252,17 +252,9 @@ def run_c14(tier, seed):
         return [("ENUM", t) for t in ts] + [("SKEL", t) for t in F.skel_terms(tier_)] + [("NAMES", t) for t in F.names_terms(tier_)] + \
             [("VANISH", t) for t in F.vanish_terms(tier_)]
 
-    def worker(chunk):
-        st = Stats()
-        for fam, t in chunk:
-            c14_term(fam, t, st)
-            st.inc("terms")
-            if st.c["terms"] % 211 == 1:
-                st.sample({"term": M.show(t), "variables": sorted(M.variables(t))})
-        return st
-
+    from .sweep import _worker_factory     # per-term watchdog; an exception escaping from library code is a violation
     items = seeded_order(source("C14", tier), seed)
-    st = pmap_stats(worker, items, chunk=200, name="c14")
+    st = pmap_stats(_worker_factory(c14_term), items, chunk=200, name="c14")
     st2 = Stats()
     c14_names(st2)
     st.merge(st2)
